@@ -151,6 +151,17 @@ def _read(g):
             'off': int(g.get('off', 0) or 0)}
 
 
+NOST = {'head': -1, 'size': [], 'nbuf': [], 'nextgc': -1}
+
+
+def _st(e):
+    st = e.get('st')
+    if not st:
+        return dict(NOST)
+    return {'head': int(st['head']), 'size': [int(x) for x in st.get('size') or []], 'nbuf': [int(x) for x in st.get('nbuf') or []],
+            'nextgc': int(st.get('nextgc', -1))}
+
+
 def normalize_l1(events):
     """Pure reformatting of the level-1 events of one scenario into the fixed schema that
     Trace_Bucket.tla reads.  No state is guessed here."""
@@ -183,22 +194,22 @@ def normalize_l1(events):
         elif a == 'Set':
             out.append({'a': 'Set', 'n': n, 'k': e['k'], 'val': e['val'], 'rev': e['rev'], 'flag': e['flag'],
                         'nblk': e['nblk'], 'vh': e['vh'], 'res': e['res'], 'ver': int(e.get('ver', 0) or 0),
-                        'wrote': bool(e.get('wrote')), 'c': int(e.get('c', -1)), 'off': int(e.get('off', 0))})
+                        'wrote': bool(e.get('wrote')), 'c': int(e.get('c', -1)), 'off': int(e.get('off', 0)), 'st': _st(e)})
         elif a == 'Get':
             r = _read(e)
             r.update({'a': 'Get', 'n': n, 'k': e['k'], 'c': int(e.get('c', -1)), 'off': int(e.get('off', 0)),
                       'afteropen': reopened, 'aftergc': gced})
             out.append(r)
         elif a == 'Incr':
-            out.append({'a': 'Incr', 'n': n, 'k': e['k'], 'd': e['d'], 'res': e['res'], 'vh': e['vh']})
+            out.append({'a': 'Incr', 'n': n, 'k': e['k'], 'd': e['d'], 'res': e['res'], 'vh': e['vh'], 'st': _st(e)})
         elif a in ('Flush', 'Close', 'HintDump'):
-            out.append({'a': a, 'n': n})
+            out.append({'a': a, 'n': n, 'st': _st(e)})
         elif a == 'RotFlush':
-            out.append({'a': 'RotFlush', 'n': n, 'c': e['c'], 'ran': bool(e.get('ran'))})
+            out.append({'a': 'RotFlush', 'n': n, 'c': e['c'], 'ran': bool(e.get('ran')), 'st': _st(e)})
         elif a == 'Open':
             rm = [x for x in (_rm_entry(nm) for nm in e.get('removed', [])) if x]
             out.append({'a': 'Open', 'n': n, 'removed': rm, 'meta': e.get('meta', {}), 'head': e.get('head', -1),
-                        'ok': 'err' not in e, 'ctab': e.get('ctab') or []})
+                        'ok': 'err' not in e, 'ctab': e.get('ctab') or [], 'st': _st(e)})
             reopened = True
         elif a == 'GCStart':
             out.append({'a': 'GCStart', 'n': n, 'begin': e['begin'], 'end': e['end'], 'merge': bool(e.get('merge')),
@@ -228,7 +239,7 @@ def normalize_l1(events):
                     cancelled = True
             g = {'a': 'GC', 'n': n, 'res': e.get('res', 'err'), 'rb': e.get('rb', -1), 're': e.get('re', -1),
                  'released': int(e.get('released', 0)), 'frame': frame, 'created': e.get('created') or [],
-                 'head': e.get('head', -1), 'second': False, 'concurrent': conc_writes}
+                 'head': e.get('head', -1), 'second': False, 'concurrent': conc_writes, 'st': _st(e)}
             out.append(g)
             gced = True
 
